@@ -180,7 +180,11 @@ func (s *Session) verifyFunc(fn *ssa.Function, c *Contract) (vc *FnVC, err error
 			}
 		}
 		if !hit {
-			return vc, fmt.Errorf("%s: callsite clause for %s matches no call in the function body", c.Key, cr.Callee)
+			// not an error: on a changed tree the call may legitimately be gone (and whatever replaced it is judged by the
+			// other obligations and the sweeps).  tools/run_all.sh refuses such a line on the unchanged tree, where it
+			// means a misspelt callee.
+			fmt.Printf("UNMATCHED-CALLSITE %s: callsite clause for %s matches no call in the function body\n", c.Key, cr.Callee)
+			vc.note("callsite clause for " + cr.Callee + " matches no call")
 		}
 	}
 	// postconditions
